@@ -761,6 +761,7 @@ func runE2EWorld(rc *RunCtx) *Outcome {
 	o.Steps = res.Steps
 	o.SimTime = res.SimTime
 	o.LogHash = res.Hash
+	o.Sched = res.SchedHash
 	if rc.KeepLog {
 		o.Log = append(o.Log, w.describe()...)
 		for _, e := range w.sim.Events() {
